@@ -1373,7 +1373,7 @@ def b4(repo: Repo) -> RuleResult:
     return res
 
 
-def _unescape_scan(tops: List[Any]) -> Tuple[bool, str, List[Tuple[str, str]]]:
+def _unescape_scan(tops: List[Any], strict_text: Optional[str] = None) -> Tuple[bool, str, List[Tuple[str, str]]]:
     """The unescape procedure as one left-to-right scan: a plain character is copied and advances the
     scan by one; a backslash followed by a table character emits the table entry and advances by two;
     a backslash followed by anything else raises.  Two spellings of the scan are understood: an index
@@ -1453,6 +1453,26 @@ def _unescape_scan(tops: List[Any]) -> Tuple[bool, str, List[Tuple[str, str]]]:
                     pieces.append(d)
         cur_txt = _sh(cur) if cur is not None else None
         nxt_txt = _sh(nxt) if nxt is not None else None
+        # every look at the scanned text on this iteration: at the scan position, or one behind it after a backslash
+        import re as _re_s
+
+        texts = [_sh(x) for k_, _t in sp.guards for x in k_[1:] if hasattr(x, "terms")]
+        texts += [_sh(v_) for v_ in sp.env.values() if hasattr(v_, "terms")]
+        texts += [_sh(x) for e in sp.effects for x in (e.args or []) if hasattr(x, "terms")]
+        if idx is not None:
+            for tx in texts:
+                for m_ in _re_s.finditer(_re_s.escape(f"[{idx}{tag}") + r"(?: ([+-]) (\d+))?\]", tx):
+                    off = int(m_.group(2) or 0) * (-1 if m_.group(1) == "-" else 1)
+                    if off not in ((0, 1) if bs is True else (0,)):
+                        return False, f"the scanned text is read at offset {off} from the scan position" + ("" if bs is True else " without a backslash at the scan position"), []
+                if strict_text is not None and f"[{idx}{tag}" in tx and f"{strict_text}[{idx}{tag}" not in tx:
+                    return False, f"the scan does not run over `{strict_text}`", []
+        else:
+            if strict_text is not None and it_txt != f"iter({strict_text})":
+                return False, f"the scan does not run over `{strict_text}`", []
+            n_next = sum(1 for e in sp.effects if e.kind == "call" and e.name == "next")
+            if n_next > (1 if bs is True else 0):
+                return False, "the iterator is advanced by next() without a backslash at the scan position, or twice", []
         if idx is not None and cur_txt is not None and not cur_txt.endswith(f"[{idx}{tag}]"):
             return False, f"the character tested against the backslash is `{cur_txt}`, not the one at the scan index", []
         if bs is False:
@@ -1482,6 +1502,94 @@ def _unescape_scan(tops: List[Any]) -> Tuple[bool, str, List[Tuple[str, str]]]:
     if not ok and not why:
         why = f"cases seen: {seen}"
     return ok and not bad, why, bad
+
+
+_IMPORT_PATH_CACHE: Dict[str, Any] = {}
+
+
+def import_path_analysis(repo: Repo) -> Tuple[List[Dict[str, Any]], List[Finding], List[str], Set[str]]:
+    """The file an import statement hands to the child parser, as a value over the path token, on
+    every path of p_import with the private helpers inlined (whatever they are called).  Returns
+    (instances, findings, inconclusive notes, names of the Parser methods the value is computed in)."""
+    key = str(repo.root) + "|" + str(sorted(getattr(repo, "overlay", {}) or {}))
+    if key in _IMPORT_PATH_CACHE:
+        return _IMPORT_PATH_CACHE[key]
+    import re as _re
+
+    from .flows import compiler_flow
+    from .normal import V as _V
+    from .normal import show as _show
+
+    fl = compiler_flow(repo, "Parser", "parser.py", inline=lambda n_, f_: n_.startswith("_"), module_funcs=True)
+    fn = fl.methods.get("p_import")
+    insts: List[Dict[str, Any]] = []
+    bad: List[Finding] = []
+    unsure: List[str] = []
+    helpers: Set[str] = set()
+    if fn is None:
+        out = (insts, bad, ["B5: import path: Parser.p_import vanished"], helpers)
+        _IMPORT_PATH_CACHE[key] = out
+        return out
+    # private helpers p_import reaches through self._x() calls
+    todo = [fn]
+    while todo:
+        f_ = todo.pop()
+        for c_ in ast.walk(f_):
+            if isinstance(c_, ast.Call) and isinstance(c_.func, ast.Attribute) and isinstance(c_.func.value, ast.Name) and c_.func.value.id == "self" and c_.func.attr.startswith("_") and c_.func.attr in fl.methods and c_.func.attr not in helpers:
+                helpers.add(c_.func.attr)
+                todo.append(fl.methods[c_.func.attr])
+    helpers.add("p_import")
+    ACCEPT = {
+        "IMP": "absolute path as written",
+        "os.path.join(os.path.dirname(self.current_filepath()), IMP)": "relative to the importing file",
+        "os.path.join(os.getcwd(), IMP)": "relative to the working directory (string input)",
+    }
+    prm = [a_.arg for a_ in fn.args.args]
+    seen: Set[Tuple[str, Tuple[str, ...]]] = set()
+    n_calls = 0
+    for p_ in fl.run(fn, {prm[0]: _V("self"), prm[1]: _V("p")}):
+        for e in p_.effects:
+            if e.kind != "call" or not e.name.startswith("parse") or not e.args or not hasattr(e.args[0], "terms"):
+                continue
+            n_calls += 1
+            raw = _show(e.args[0])
+            toks = sorted(set(_re.findall(r"p\[[^\]]+\]", raw)))
+            gt_raw = p_.guard_text()
+            if len(toks) != 1:
+                unsure.append(f"B5: import path: `{raw}` is not a value over one symbol of the import statement")
+                continue
+            imp = toks[0]
+            r_ = raw.replace(imp, "IMP")
+            gt = [g_.replace(imp, "IMP") for g_ in gt_raw]
+            long_form = any(g_ == "len(p) - 5 == 0" for g_ in gt_raw)
+            short_form = any(g_ == "not(len(p) - 5 == 0)" for g_ in gt_raw)
+            k_ = (r_, tuple(g_ for g_ in gt if "IMP" in g_ or "current_filepath" in g_) + (imp,) + (("as",) if long_form else ()))
+            if k_ in seen:
+                continue
+            seen.add(k_)
+            insts.append({"returns": r_, "symbol": imp, "under": [g_ for g_ in gt if "IMP" in g_ or "current_filepath" in g_][:4]})
+            want = {"p[len(p) - 2]"} | ({"p[3]"} if long_form else set()) | ({"p[2]"} if short_form else set())
+            if imp not in want:
+                if _re.fullmatch(r"p\[\d+\]", imp) and (long_form or short_form):
+                    bad.append(Finding("B5", PARSER, fn.lineno, "Parser.p_import", imp, f"the file to import is taken from symbol `{imp}` of `import [name] \"path\"`" + (" with a name" if long_form else " without a name") + ": that is not the path", tag="import-path:symbol"))
+                else:
+                    unsure.append(f"B5: import path: symbol `{imp}` of the import statement not identified (paths under {gt_raw[:3]})")
+                continue
+            if r_ not in ACCEPT:
+                bad.append(Finding("B5", PARSER, fn.lineno, "Parser.p_import", r_, f"an import can resolve to `{r_}` (path under {gt}): an imported file is the path as written when absolute, otherwise the file of that relative name next to the importing file - a like-named file elsewhere (next to the entry file, in the working directory) is another file with other definitions", witness="drivers/motor.bitproto imports \"common.bitproto\" while another common.bitproto lies next to the entry file", tag="import-path"))
+            elif r_ == "IMP" and not any("isabs(IMP)" in g_ and not g_.startswith("not(") for g_ in gt):
+                bad.append(Finding("B5", PARSER, fn.lineno, "Parser.p_import", r_, f"the path is used as written on a path that has not established that it is absolute ({gt}): it is then relative to the working directory", tag="import-path:as-written"))
+            elif "getcwd" in r_ and not any(g_ == "not(self.current_filepath())" for g_ in gt):
+                bad.append(Finding("B5", PARSER, fn.lineno, "Parser.p_import", r_, f"the working directory is used although a file is being parsed ({gt})", tag="import-path:cwd"))
+    if n_calls == 0:
+        unsure.append("B5: import path: p_import hands no file to a parse call")
+    # de-duplicate findings by tag + construct
+    uniq: Dict[Tuple[str, str], Finding] = {}
+    for f_ in bad:
+        uniq.setdefault((f_.tag, f_.construct), f_)
+    out = (insts, list(uniq.values()), sorted(set(unsure)), helpers)
+    _IMPORT_PATH_CACHE[key] = out
+    return out
 
 
 # --------------------------------------------------------------------------
@@ -1625,24 +1733,44 @@ def b5(repo: Repo) -> RuleResult:
         if ".append(" not in txt:
             res.bad(Finding("B5", PARSER, fn.lineno, "Parser.push_scope", txt, "scopes must be pushed at the end of the stack (the lookup treats the end as innermost)", tag="push-scope"))
 
-    # (c) eager resolution, resolved object stored
-    for aname in ("p_type_reference", "p_constant_reference"):
-        fn = methods.get(aname)
-        if fn is None:
-            res.unsure(f"B5: {aname} vanished")
-            continue
-        calls = [n for n in ast.walk(fn) if isinstance(n, ast.Assign) and isinstance(n.value, ast.Call) and isinstance(n.value.func, ast.Attribute) and n.value.func.attr == "_lookup_referenced_member"]
-        stores = [n for n in ast.walk(fn) if isinstance(n, ast.Assign) and any(_is_p0(t) for t in n.targets)]
-        res.inst(part="resolution", action=aname, lookups=len(calls), stores=len(stores))
-        if len(calls) != 1 or not calls[0].value.args or src_of(calls[0].value.args[0]) != "p[1]":
-            res.bad(Finding("B5", PARSER, fn.lineno, f"Parser.{aname}", "", "the reference is not looked up from its own identifier p[1] at the point of use", tag=f"{aname}:lookup"))
-            continue
-        var = calls[0].targets[0]
-        others = [n for n in ast.walk(fn) if isinstance(n, (ast.Assign, ast.AnnAssign, ast.NamedExpr)) and n is not calls[0] and any(src_of(t) == src_of(var) for t in (n.targets if isinstance(n, ast.Assign) else [n.target]))]
-        if others:
-            res.bad(Finding("B5", PARSER, others[0].lineno, f"Parser.{aname}", src_of(others[0]), f"`{src_of(var)}` also comes from `{src_of(others[0].value) if getattr(others[0], 'value', None) is not None else '?'}`: the reference is not (always) resolved by a fresh lookup at the point of use, so a definition declared in the meantime (shadowing) is missed", witness="message A { uint8 x = 1 ... } a scope that uses N (resolving outward), then declares its own N, then uses N again", tag=f"{aname}:second-source"))
-        if not (len(stores) == 1 and src_of(stores[0].value) == src_of(var)):
-            res.bad(Finding("B5", PARSER, fn.lineno, f"Parser.{aname}", "", "the value of the reference is not the definition that was looked up", tag=f"{aname}:value"))
+    # (c) eager resolution, resolved object stored: on every path that returns, the identifier p[1] is
+    # looked up exactly once, at the point of use, and p[0] is the definition that lookup returned
+    try:
+        from .flows import compiler_flow as _cfc
+        from .normal import V as _Vc
+        from .normal import show as _shc
+
+        flc = _cfc(repo, "Parser", "parser.py", inline=lambda n_, f_: n_.startswith("_") and n_ not in ("_lookup_referenced_member", "_get_col"), module_funcs=True)
+        for aname in ("p_type_reference", "p_constant_reference"):
+            fn = flc.methods.get(aname)
+            if fn is None:
+                res.unsure(f"B5: {aname} vanished")
+                continue
+            prm_c = [a_.arg for a_ in fn.args.args]
+            rets = [p_ for p_ in flc.run(fn, {prm_c[0]: _Vc("self"), prm_c[1]: _Vc("p")}) if p_.done == "return"]
+            res.inst(part="resolution", action=aname, returning_paths=len(rets))
+            if not rets:
+                res.unsure(f"B5: {aname}: no returning path")
+                continue
+            want = "self._lookup_referenced_member(p[1])"
+            done_ = set()
+            for p_ in rets:
+                looks = [e for e in p_.effects if e.kind == "call" and e.name == "_lookup_referenced_member"]
+                stores = [e for e in p_.effects if e.kind == "store" and e.name == "p" and len(e.args) == 2 and hasattr(e.args[0], "terms") and e.args[0].const_value() == 0]
+                gt = p_.guard_text()
+                if (len(looks) != 1 or not looks[0].args or _shc(looks[0].args[0]) != "p[1]") and "lookup" not in done_:
+                    done_.add("lookup")
+                    res.bad(Finding("B5", PARSER, fn.lineno, f"Parser.{aname}", ", ".join(_shc(e.args[0]) if e.args else "()" for e in looks), f"the reference is not looked up from its own identifier p[1] at the point of use (path under {gt[:3]}: {len(looks)} lookup(s))", tag=f"{aname}:lookup"))
+                    continue
+                if len(stores) != 1 and "value" not in done_:
+                    done_.add("value")
+                    res.bad(Finding("B5", PARSER, fn.lineno, f"Parser.{aname}", "", f"the value of the reference is not the definition that was looked up (p[0] is stored {len(stores)} times on the path under {gt[:3]})", tag=f"{aname}:value"))
+                    continue
+                if stores and _shc(stores[0].args[1]) != want and "second-source" not in done_:
+                    done_.add("second-source")
+                    res.bad(Finding("B5", PARSER, fn.lineno, f"Parser.{aname}", _shc(stores[0].args[1]), f"the value of the reference is `{_shc(stores[0].args[1])}` on the path under {gt[:3]}: the reference is not (always) resolved by a fresh lookup at the point of use, so a definition declared in the meantime (shadowing) is missed", witness="message A { uint8 x = 1 ... } a scope that uses N (resolving outward), then declares its own N, then uses N again", tag=f"{aname}:second-source"))
+    except Inconclusive as e:
+        res.unsure(f"B5: resolution: {e}")
 
     # (d) import name
     fn = methods.get("p_import")
@@ -1725,35 +1853,13 @@ def b5(repo: Repo) -> RuleResult:
     # (f) what file an import statement denotes: the path as written when absolute, otherwise relative to
     # the directory of the importing file (the working directory only when a string is parsed)
     try:
-        from .flows import compiler_flow as _cff
-        from .normal import V as _Vf
-        from .pymodel import get_model as _gmf
-
-        mf_ = _gmf(repo)
-        gf = mf_.func("parser.py", "Parser._get_child_filepath")
-        prm_f = [a_.arg for a_ in gf.node.args.args]
-        flf = _cff(repo, "Parser", "parser.py", inline=lambda n_, f_: n_.startswith("_") and n_ != "_get_child_filepath")
-        ACCEPT = {
-            "IMP": "absolute path as written",
-            "os.path.join(os.path.dirname(self.current_filepath()), IMP)": "relative to the importing file",
-            "os.path.join(os.getcwd(), IMP)": "relative to the working directory (string input)",
-        }
-        n_ret = 0
-        for p_ in flf.run(gf.node, {prm_f[0]: _Vf("self"), prm_f[1]: _Vf("IMP")}):
-            if p_.done != "return" or p_.ret is None:
-                continue
-            n_ret += 1
-            r_ = show(p_.ret)
-            gt = p_.guard_text()
-            res.inst(part="import-path", returns=r_, under=gt)
-            if r_ not in ACCEPT:
-                res.bad(Finding("B5", gf.rel, gf.node.lineno, gf.qual, r_, f"an import can resolve to `{r_}` (path under {gt}): an imported file is the path as written when absolute, otherwise the file of that relative name next to the importing file - a like-named file elsewhere (next to the entry file, in the working directory) is another file with other definitions", witness="drivers/motor.bitproto imports \"common.bitproto\" while another common.bitproto lies next to the entry file", tag="import-path"))
-            elif r_ == "IMP" and not any("isabs(IMP)" in g_ and not g_.startswith("not(") for g_ in gt):
-                res.bad(Finding("B5", gf.rel, gf.node.lineno, gf.qual, r_, f"the path is used as written on a path that has not established that it is absolute ({gt}): it is then relative to the working directory", tag="import-path:as-written"))
-            elif "getcwd" in r_ and not any(g_ == "not(self.current_filepath())" for g_ in gt):
-                res.bad(Finding("B5", gf.rel, gf.node.lineno, gf.qual, r_, f"the working directory is used although a file is being parsed ({gt})", tag="import-path:cwd"))
-        if n_ret == 0:
-            res.unsure("B5: Parser._get_child_filepath returns nothing")
+        insts_f, bad_f, unsure_f, _helpers_f = import_path_analysis(repo)
+        for i_ in insts_f:
+            res.inst(part="import-path", **i_)
+        for f_ in bad_f:
+            res.bad(f_)
+        for u_ in unsure_f:
+            res.unsure(u_)
     except Inconclusive as e:
         res.unsure(f"B5: import path: {e}")
 
